@@ -6,11 +6,11 @@
 set -u
 export GOFLAGS=-mod=mod GOPROXY=off GOSUMDB=off GOTOOLCHAIN=local
 P="$1"; N="$2"; shift 2
-SRC=/tmp/wt/$P/_out
+SRC=${SEED_SRC:-/tmp/wt/$P/_out}
 PATCH=$SRC/patch$N.diff
 DEMO=$SRC/demo${N}_test.go
 [ -f "$PATCH" ] || { echo "no $PATCH"; exit 2; }
-OUT=/verif/seeded/$P-$N
+OUT=/verif/seeded/$P-${SEED_NAME:-$N}
 mkdir -p $OUT
 cp $PATCH $OUT/patch.diff
 [ -f "$DEMO" ] && cp $DEMO $OUT/demo_test.go.txt
@@ -29,35 +29,38 @@ if git apply $PATCH 2>$OUT/apply.err; then
   if go test -count=1 -timeout 120s -run "$RUN" ./$PKG/ >$OUT/demo_with.log 2>&1; then DEMO_WITH=pass; else DEMO_WITH=fail; fi
   git checkout -- . 2>/dev/null
   if go test -count=1 -timeout 120s -run "$RUN" ./$PKG/ >$OUT/demo_without.log 2>&1; then DEMO_WITHOUT=pass; else DEMO_WITHOUT=fail; fi
+  rm -f $SC/$PKG/zz_demo_test.go
 else
   SUITE=patch-does-not-apply
 fi
 cd /verif
-git -C /repo worktree remove --force $SC >/dev/null 2>&1
-rm -rf $SC
 RESULTS=""
 if [ "$SUITE" = green ] && [ "$DEMO_WITH" = fail ] && [ "$DEMO_WITHOUT" = pass ]; then
-  git -C /repo apply $PATCH
+  # the check runs against the scratch worktree (the committed tree of /repo plus the change), so that /repo itself
+  # is never touched and work there can go on meanwhile
+  git -C $SC apply $PATCH
   for Q in $P "$@"; do
-    /verif/bin/govc check -prop $Q -repo /repo -out $OUT/evidence-$Q.json -replaydir $OUT/replay > $OUT/check-$Q.out 2> $OUT/check-$Q.err
+    /verif/bin/govc check -prop $Q -repo $SC -out $OUT/evidence-$Q.json -replaydir $OUT/replay > $OUT/check-$Q.out 2> $OUT/check-$Q.err
     RC=$?
     NV=$(grep -c '^VIOLATION' $OUT/check-$Q.out)
     NC=$(grep '^VIOLATION' $OUT/check-$Q.out | grep -vc 'no-failing-input-found')
     RESULTS="$RESULTS $Q:exit=$RC,violations=$NV,replayed=$NC"
   done
-  git -C /repo checkout -- .
 fi
+git -C /repo worktree remove --force $SC >/dev/null 2>&1
+rm -rf $SC
 python3 - "$P" "$N" "$SUITE" "$DEMO_WITH" "$DEMO_WITHOUT" "$RESULTS" <<'PY'
 import json,sys,os
 p,n,suite,dw,dwo,res=sys.argv[1:7]
-out=f"/verif/seeded/{p}-{n}"
+import os
+out=f"/verif/seeded/{p}-{os.environ.get('SEED_NAME', n)}"
 notes=""
-try: notes=open(f"/tmp/wt/{p}/_out/notes.md").read()
+try: notes=open(os.environ.get("SEED_SRC", f"/tmp/wt/{p}/_out")+"/notes.md").read()
 except Exception: pass
 meta={"property":p,"change":int(n),"suite_with_change":suite,"demo_with_change":dw,"demo_without_change":dwo,
  "confirmed": suite=="green" and dw=="fail" and dwo=="pass",
  "checks_run":res.strip(),
- "what_ran":"scratch worktree of /repo HEAD: git apply patch; go test ./... ; demo test with and without the change; then /verif/bin/govc check -prop <id> against /repo with the patch applied (reverted afterwards)",
+ "what_ran":"scratch worktree of /repo HEAD: git apply patch; go test ./... ; demo test with and without the change; then /verif/bin/govc check -prop <id> against that worktree with the patch applied",
  "agent_notes":notes}
 json.dump(meta,open(out+"/meta.json","w"),indent=1)
 print(p,n,suite,dw,dwo,res)
